@@ -252,6 +252,32 @@ def gen_mdrv(verif, dst, repo):
         acc_d.append(t)
     write_if_changed(os.path.join(gen_root, "accept_driver.rs"), "impl DriverH {\n" + "\n\n".join(acc_d) + "\n}\n")
 
+    # control-plane readers under the worker's select loop (C05): the harness plays run_impl's outer loop and run_control_streams' select, so the generator first makes sure that loop still has the shape the harness stands
+    # for: `loop { tokio::select! { ... error = Self::run_control_streams(...) => ... } }` with the call INSIDE the loop
+    ri, ln_ri = slice_item(drv, r"^        async fn run_impl\(&mut self\)", "worker::Worker::run_impl")
+    m_loop = re.search(r"\n\s*loop \{\s*\n\s*tokio::select! \{", ri)
+    m_call = re.search(r"error = Self::run_control_streams\(", ri)
+    if not m_loop or not m_call or m_call.start() < m_loop.start():
+        raise GenError("run_impl no longer creates run_control_streams(..) inside `loop { tokio::select! { .. } }`: "
+                       "the C05 harness (which re-creates the future per iteration, as that loop does) does not apply")
+    sliced[f"wtransport/src/driver/mod.rs:{ln_ri} worker::Worker::run_impl (shape check only: run_control_streams is created inside the select loop)"] = len(ri)
+    t, ln = slice_item(drv, r"^        async fn run_control_streams\(", "worker::Worker::run_control_streams")
+    if not re.search(r"tokio::select! \{[^}]*error = remote_settings\.run\(\) => error", t, re.S):
+        raise GenError("run_control_streams is no longer a tokio::select! with the branch `error = remote_settings.run() => error`: "
+                       "the C05 harness does not apply")
+    sliced[f"wtransport/src/driver/mod.rs:{ln} worker::Worker::run_control_streams (shape check only: a select! over the run() futures created in place)"] = len(t)
+    st = rd("driver/streams/settings.rs")
+    if not re.search(r"async fn read_frame<'a>\(&mut self\)[^{]*\{.*?match stream\.read_frame\(\)\.await \{", st, re.S) \
+            or not re.search(r"pub async fn run\(&mut self\) -> DriverError \{\s*loop \{\s*let frame = match self\.read_frame\(\)\.await", st, re.S):
+        raise GenError("RemoteSettingsStream::{run,read_frame} no longer await the stream's read_frame directly: the C05 harness does not apply")
+    sm2 = rd("driver/streams/mod.rs")
+    if sm2.count("self.proto.read_frame_async(&mut self.stream).await") < 1:
+        raise GenError("driver::streams::*::read_frame no longer delegates to proto.read_frame_async(&mut self.stream).await: the C05 harness does not apply")
+    sliced["wtransport/src/driver/streams/settings.rs RemoteSettingsStream::{run,read_frame}, driver/streams/mod.rs StreamUniRemoteH3::read_frame (shape check only: `.await` delegations)"] = 0
+    pst = open(os.path.join(repo, "wtransport-proto", "src", "stream.rs")).read()
+    if len(re.findall(r"loop \{\s*match Frame::read_async\(reader\)\.await \{", pst)) < 3:
+        raise GenError("proto read_frame_async no longer is `loop { match Frame::read_async(reader).await {..} }`: the C05 harness does not apply")
+
     conn = rd("connection.rs")
     t, ln = slice_item(conn, r"^    pub fn max_datagram_size\(&self\)", "Connection::max_datagram_size")
     sliced[f"wtransport/src/connection.rs:{ln} Connection::max_datagram_size"] = len(t)
